@@ -24,56 +24,6 @@ set_option linter.unusedSimpArgs false
 
 variable {α : Type} [LT α] [DecidableRel (fun a b : α => a < b)]
 
-/-- the state after the prologue -/
-private def s1 (e : Nat) : St :=
-  { status := 0, bounds := 0, cerr := 0, errno := 0, saved := e, reports := 0, ret := none }
-
-private theorem prologue_run (d : Desc α) (e : Nat) :
-    run (emit d).prologue
-      { status := 0, bounds := 0, cerr := 0, errno := e, saved := 0, reports := 0, ret := none } = s1 e := by
-  simp [emit, run, step, s1]
-
-/-- from the body on (arguments accepted, possibly with a Warning of rank `w`) -/
-private theorem body_eq_spec (d : Desc α) (c : Call α) (hlen : c.args.length = d.inputs.length)
-    (w k : Nat) :
-    outcome c (execBody (emit d) c
-      { s1 c.errno0 with status := (if w = 0 then 0 else 1), bounds := (w : Int), reports := k })
-      = specBody d c w := by
-  unfold execBody specBody
-  cases hexc : c.body.exc with
-  | std => simp [emit, run, step, outcome, s1]
-  | other => simp [emit, run, step, outcome, s1]
-  | none =>
-    have hout : (emit d).outChecks =
-        physChecks (d.inputs.length + 1) [d.output] ++ stdChecks (d.inputs.length + 1) [d.output] := rfl
-    have hv : valueOf c.args c.body.out (d.inputs.length + 1) = c.body.out := by
-      rw [← hlen]; exact valueOf_output _ _
-    have hE : (emit d).onErrno = [.status (-3), .cerrErrno, .report] := rfl
-    have hA : (emit d).afterErrno = [.restore] := rfl
-    have hN : (emit d).onNonFinite = [.status (-4)] := rfl
-    have hP : (emit d).epilogue = [.retOut] := rfl
-    simp only [hout, hE, hA, hN, hP]
-    -- the state when the output tests start
-    generalize hs4 : (if c.body.errno ≠ 0 then
-        ({ s1 c.errno0 with status := (if w = 0 then 0 else 1), bounds := (w : Int), reports := k,
-                            errno := c.body.errno } : St)
-      else { s1 c.errno0 with status := (if w = 0 then 0 else 1), bounds := (w : Int), reports := k }) = s4
-    have hs4' : s4 = { s1 c.errno0 with status := (if w = 0 then 0 else 1), bounds := (w : Int),
-                                        reports := k, errno := c.body.errno } := by
-      rw [← hs4]; by_cases he : c.body.errno = 0 <;> simp [he, s1]
-    have hret : s4.ret = none := by rw [hs4']; rfl
-    rw [runChecks_output c.policy c.args c.body.out d.output d.inputs.length s4 hret hv]
-    subst hs4'
-    by_cases hph : optViolated d.output.phys c.body.out = true
-    · simp [hph, failed, run, step, outcome, s1]
-    · by_cases hst : optViolated d.output.std c.body.out = true
-      · rcases hpol : c.policy with _ | _ | _ <;> by_cases he : c.body.errno = 0 <;>
-          cases hf : Val.isFinite c.body.out <;>
-          simp [hph, hst, hpol, he, hf, failed, warned, run, step, outcome, s1]
-      · rcases hpol : c.policy with _ | _ | _ <;> by_cases he : c.body.errno = 0 <;>
-          cases hf : Val.isFinite c.body.out <;>
-          simp [hph, hst, hpol, he, hf, failed, warned, run, step, outcome, s1]
-
 /-- **Main theorem.** The modelled generated function returns exactly the documented tuple
 `(status, bounds_status, c_error_number, return value, errno after the call)`:
 `-5` for a wrong number of arguments; physical bounds first (`-1`, minus the rank, whatever the
